@@ -296,3 +296,114 @@ func sortedStrings(s []string) []string {
 }
 
 var _ = runtime.NewScheme
+
+// ---- shared-context / iteration-order purity ------------------------------------------------------------------------
+
+type c13CtxCase struct {
+	Part  string            `json:"part"`
+	Files map[string]string `json:"files"`
+	Ctx   PkgCtx            `json:"ctx"`
+}
+
+const c13CtxManifest = `apiVersion: manifests.package-operator.run/v1alpha1
+kind: PackageManifest
+metadata:
+  name: pkg-a
+spec:
+  scopes: [Namespaced]
+  phases:
+  - name: ph0
+  config:
+    openAPIV3Schema:
+      type: object
+      properties:
+        label: {type: string}
+        flag: {type: boolean}
+`
+
+func runC13Ctx(c *c13CtxCase) (rendered bool, err error) {
+	var first map[string]any
+	var firstHash string
+	for i := 0; i < 8; i++ {
+		files := map[string][]byte{}
+		for k, v := range c.Files {
+			files[k] = []byte(v)
+		}
+		spec, hash, rerr := renderOnce(files, c.Ctx)
+		if rerr != nil {
+			if _, isViol := rerr.(*Violation); isViol {
+				return false, rerr
+			}
+			if i > 0 && first != nil {
+				return true, Violf("C13", "render-not-deterministic", "render %d of the same package failed (%v) although render 0 succeeded", i, trunc(rerr.Error(), 300))
+			}
+			if i >= 3 {
+				return false, nil
+			}
+			continue
+		}
+		if first == nil {
+			if i > 0 {
+				return true, Violf("C13", "render-not-deterministic", "render %d of the same package succeeded although earlier renders of it failed", i)
+			}
+			first, firstHash = spec, hash
+			continue
+		}
+		if hash != firstHash || !kubesim.JSONEqual(first, spec) {
+			return true, Violf("C13", "render-not-deterministic", "render %d of the same package differs from render 0 (hash %s vs %s): %s", i, hash, firstHash, firstDiff(first, spec))
+		}
+	}
+	return first != nil, nil
+}
+
+func TestC13Context(t *testing.T) {
+	st := NewStats("C13", "context", "packages of 2-4 template files whose templates read and write the shared template context and iterate over maps with the offered functions (set / unset / get / hasKey on .config and nested dicts, keys / values / pick / omit / merge / toJson of multi-entry maps, range over maps); the same file set is rendered 8 times from fresh copies; oracle = all renders agree (result and hash) and either all fail or all succeed; non-trivial = the package rendered")
+	CheckOrReplay(t, st, func(data []byte) (any, error) {
+		var c c13CtxCase
+		if err := json.Unmarshal(data, &c); err != nil {
+			return nil, err
+		}
+		_, err := runC13Ctx(&c)
+		return &c, err
+	}, func(rt *rapid.T) {
+		c := &c13CtxCase{Part: "context", Files: map[string]string{"manifest.yaml": c13CtxManifest}, Ctx: PkgCtx{Label: "alpha", HasLabel: true, Flag: true, KubeVersion: "v1.27.0", PkgName: "inst", PkgNS: "ns-a"}}
+		nf := rapid.IntRange(2, 4).Draw(rt, "nfiles")
+		dictLit := `(dict "k1" "a" "k2" "b" "k3" "c" "k4" "d" "k5" "e" "k6" "f")`
+		for i := 0; i < nf; i++ {
+			var sb strings.Builder
+			sb.WriteString(fmt.Sprintf("apiVersion: v1\nkind: ConfigMap\nmetadata:\n  name: cm-%d\n  annotations:\n    package-operator.run/phase: ph0\ndata:\n", i))
+			n := rapid.IntRange(1, 4).Draw(rt, "nstmts")
+			for j := 0; j < n; j++ {
+				key := rapid.SampledFrom([]string{"leak", "label", "x"}).Draw(rt, "key")
+				var expr string
+				switch rapid.IntRange(0, 11).Draw(rt, "stmt") {
+				case 0, 1:
+					expr = fmt.Sprintf(`{{ $_ := set .config %q "v%d" }}w`, key, i)
+				case 2:
+					expr = fmt.Sprintf(`{{ $_ := unset .config %q }}u`, key)
+				case 3, 4:
+					expr = fmt.Sprintf(`{{ get .config %q | quote }}`, key)
+				case 5:
+					expr = fmt.Sprintf(`{{ hasKey .config %q | quote }}`, key)
+				case 6:
+					expr = `{{ keys ` + dictLit + ` | join "," | quote }}`
+				case 7:
+					expr = `{{ values ` + dictLit + ` | join "," | quote }}`
+				case 8:
+					expr = `{{ range $k, $v := ` + dictLit + ` }}{{ $k }}={{ $v }};{{ end }}`
+				case 9:
+					expr = `{{ pick ` + dictLit + ` "k1" "k5" "k3" | toJson | quote }}`
+				case 10:
+					expr = `{{ keys (merge (dict "z" 1 "y" 2 "x" 3) ` + dictLit + `) | join "," | quote }}`
+				default:
+					expr = fmt.Sprintf(`{{ $_ := set .package.metadata.labels %q "v" }}{{ .package.metadata.labels | toJson | quote }}`, key)
+				}
+				sb.WriteString(fmt.Sprintf("  f%d: %s\n", j, expr))
+			}
+			c.Files[fmt.Sprintf("%s.yaml.gotmpl", rapid.SampledFrom([]string{"a", "b", "c/d", "e-f", "g.h", "z"}).Draw(rt, "fname")+fmt.Sprint(i))] = sb.String()
+		}
+		ok, err := runC13Ctx(c)
+		st.Case(c, ok)
+		st.Report(rt, c, err)
+	})
+}
